@@ -73,6 +73,7 @@ def run(rng, nscen, steps=14):
             if op == "query":
                 res = query_wrapper(wraps[i], cls)
                 ttrace.append({"ev": "Typing", "cls": classes.describe(cls), "seq": dna.enc(str(rec.seq)), "res": res,
+                               "cspec": {"generic": "vector" if i == 0 else "module", "enz": espec},
                                "twin": {"by": "none", "k": 0, "res": {}}, "gen": {"has": False, "toks": [], "res": {}}})
             elif op in ("rot0", "rot"):
                 n = len(rec.seq)
